@@ -5,6 +5,8 @@
   order of these calls is re-read from the source on every run (Generated/CallOrders.lean) and
   compared with the real system calls (strace) by the correspondence check.
 -/
+import RapidModel.Generated.CallOrders
+import RapidModel.Generated.Consts
 import RapidProofs.FsAtomic
 
 namespace Rapid.C16
@@ -24,5 +26,15 @@ theorem temporary_name_not_matched (pre suf name : List Nat) (hs : suf ≠ [])
   tmp_not_matched pre suf name hs hlast
 
 example : (saveOps "d" "d/.tmp1" "d/x.fail" [[1], [2, 3]]).length = 7 := by decide
+
+/-! ### facts re-read from /repo's source on every run -/
+
+/-- the file-system calls of `saveFailFile` in source order: MkdirAll, CreateTemp, (deferred Remove,
+    Close), the writes, Close, Rename — nothing touches the final name before the rename -/
+theorem save_order_source :
+    Rapid.Generated.order_saveFailFile = ["os.MkdirAll", "os.CreateTemp", "defer os.Remove", "defer f.Name",
+      "defer f.Close", "f.WriteString", "f.WriteString", "f.Close", "os.Rename", "f.Name"] := by decide
+
+theorem tmp_pattern_source : Rapid.Generated.c_failfileTmpPattern = ".rapid-failfile-tmp-*" := by decide
 
 end Rapid.C16
